@@ -58,7 +58,7 @@ def run(eng, R):
     R.rule("F3f", "a temporary fix(p) inside a query is released on every normal path", 2)
     R.rule("Cmin", "every adapter operation that changes the problem (set/fix/release/limit/minimize, value/error/tolerance/errordef setters) invalidates the derived caches", 16)
     R.rule("Cmin2", "_invalidate_cache clears every lazily computed field; reset additionally clears the did-fit flag; did-fit is cleared only by mutators", 6)
-    R.rule("Csl", "_save_state and _load_state of each adapter handle the same fields (what is restored was saved)", 3)
+    R.rule("Csl", "_save_state and _load_state of each adapter handle the same fields (what is restored was saved); every save overwrites every entry", 3)
     R.rule("Cwb", "NexusFitter re-evaluates the objective at the final parameters after minimizing and sets the did-fit flag only then", 2)
 
     MB = p.find_class("MinimizerBase")
@@ -131,6 +131,8 @@ def run(eng, R):
         for which, f in (("_save_state", sv), ("_load_state", ld)):
             sup = any(isinstance(c, ast.Call) and isinstance(c.func, ast.Attribute) and c.func.attr == which and isinstance(c.func.value, ast.Call) and isinstance(c.func.value.func, ast.Name) and c.func.value.func.id == "super" for c in ast.walk(f.node))
             R.ob("Csl", "%s.%s:super" % (an, which), sup, eng.where(f), "%s.%s does not chain to the base class (generic caches are not %s)" % (an, which, "saved" if which == "_save_state" else "restored"))
+
+    check_snapshot_complete(eng, R, "Csl")
 
     # ---- generic helpers of MinimizerBase (analysed for both adapters' contexts through the queries above) + fix/release pairing
     for fn in ("_get_cost_value",):
@@ -221,3 +223,41 @@ def _fix_release(eng, R, f, node):
         rel_ids = {nid for nid, a in rels if a == arg}
         ok, wit = g.all_paths_pass(n.id, lambda m: m.id in rel_ids)
         R.ob("F3f", "%s:fix(%s)" % (f.qualname, arg), ok, (f.file, n.lineno), "%s fixes `%s` for the excursion and can return without releasing it: the parameter stays fixed in the fit" % (f.qualname, arg))
+
+
+def check_snapshot_complete(eng, R, rule):
+    """Every entry of the snapshot dictionary is (over)written by every save: a store that can be skipped (e.g. only when the cache is not None) leaves the
+    entry of an earlier save in place, and the next load revives results of an earlier fit state."""
+    p = eng.p
+    n_stores = 0
+    for an in ["MinimizerBase"] + list(ADAPTERS):
+        cls = p.find_class(an)
+        sv = cls.lookup("_save_state")
+        f = cls.find_method("_save_state")
+        if f is None or f.cls is not cls:
+            continue
+        g = eng.cfg(f)
+        stores = []
+        for n in g.nodes:
+            st = n.stmt
+            if n.kind == "stmt" and isinstance(st, ast.Assign):
+                for t in st.targets:
+                    if isinstance(t, ast.Subscript) and self_attr(t.value) == "_save_state_dict":
+                        stores.append((n, " ".join(ast.unparse(t.slice).split())))
+        for n, key in stores:
+            n_stores += 1
+            same = {m.id for m, k in stores if k == key}
+            loops = [l for l in ast.walk(f.node) if isinstance(l, (ast.For, ast.While)) and any(x is n.stmt for x in ast.walk(l))]
+            if loops:
+                head = [m for m in g.nodes if m.kind == "for" and m.stmt is loops[-1]]
+                if not head:
+                    raise AnalysisError("%s._save_state: loop head not found" % an)
+                # every path through one iteration (head -> head) passes a store of this key
+                path = g.find_path(head[0].id, lambda m: m.id == head[0].id, exceptional=False, avoid=lambda m: m.id in same)
+                ok = path is None or len(path) <= 1
+            else:
+                ok, _ = g.all_paths_pass(g.entry.id, lambda m: m.id in same)
+            R.ob(rule, "%s._save_state:%s" % (an, key), ok, (f.file, n.lineno),
+                 "%s._save_state can skip the entry %s: the entry of an earlier snapshot survives and the next _load_state restores results of an earlier fit state" % (an, key))
+    if n_stores < 10:
+        raise AnalysisError("snapshot stores not found (%d)" % n_stores)
